@@ -9,8 +9,9 @@ form of the struct after decoding. The engine's metadata value is (canonical for
 ops (tokens separated by single spaces)
   read  <members> <eof|err> <oracle>
   gz    <0|1> <members|@> <eof|err> <clean|corrupt|extra> <oracle>      (@ = the base members)
-  base  <members> <oracle>              remember a complete archive (and its oracle, later `^`);
-                                        answers count and byte length
+  base  <members> <oracle> <hdrs>       remember a complete archive, its oracle (later `^`) and the
+                                        512-byte header block of each member (`-` = not given);
+                                        answers count, byte length and per header name:size:checksum-ok
   layout                                regions of the base archive
   write <meta bytes> <size> <snap> <0|1>   archive.go write: members it produces (`short-snap` on error);
                                         the last flag is the map order of the two SHA256SUMS lines
@@ -101,6 +102,11 @@ def regionStr (r : Region) : String := s!"{clsStr r.cls}:{r.start}:{r.len}"
 structure St where
   base : Base := []
   orc  : List (Option Bytes) := []
+  hdrs : List Bytes := []     -- header block of each base member ([] = not given)
+
+def hdrStr (h : Bytes) : String :=
+  let sz := match hdrSize h with | some n => toString n | none => "?"
+  s!"{encB (hdrName h)}:{sz}:{encBool (checksumOK h)}"
 
 def step (st : St) (toks : List String) : St × String :=
   let base := st.base
@@ -120,14 +126,15 @@ def step (st : St) (toks : List String) : St × String :=
         ret (verdict (readGz Sha256.sha256 applyO (zeroMeta, o) ⟨h, ⟨ms, e⟩, t⟩))
       else ret ("bad-op")
     | _, _, _, _, _ => ret ("bad-op")
-  | ["base", ms, o] =>
-    match parseMembers ms, parseOracle o with
-    | some ms, some o =>
-      if ms.all (fun m => !m.short) && oracleFits ms o then
+  | ["base", ms, o, hs] =>
+    match parseMembers ms, parseOracle o, (decList hs).mapM decB with
+    | some ms, some o, some hs =>
+      if ms.all (fun m => !m.short) && oracleFits ms o && (hs.isEmpty || hs.length == ms.length) &&
+          hs.all (·.length == 512) then
         let b : Base := ms.map fun m => (m.name, m.data)
-        (⟨b, o⟩, s!"ok n={b.length} total={total (b.map (·.2.length))}")
+        (⟨b, o, hs⟩, s!"ok n={b.length} total={total (b.map (·.2.length))} hdr={encList (hs.map hdrStr)}")
       else ret ("bad-op")
-    | _, _ => ret ("bad-op")
+    | _, _, _ => ret ("bad-op")
   | ["write", mb, sz, snap, sw] =>
     match decB mb, sz.toNat?, decB snap, decBool sw with
     | some mb, some sz, some snap, some sw =>
@@ -147,7 +154,7 @@ def step (st : St) (toks : List String) : St × String :=
     match p.toNat?, v.toNat?, parseOracle o with
     | some pos, some val, some o =>
       if val < 256 then
-        match flipViews base pos val with
+        match (if st.hdrs.isEmpty then flipViews base pos val else flipViewsH st.hdrs base pos val) with
         | [s] =>
           if oracleFits s.members o then ret (s!"view={viewStr s} {runRead s o}") else ret ("bad-op")
         | [s1, s2] =>
